@@ -172,6 +172,20 @@ def main_for(pid: str, run_fn):
     except MachineryError as e:
         print(f"MACHINERY-ERROR property={pid}: {e}", file=sys.stderr)
         rc = 2
+    except Exception as e:  # noqa: BLE001
+        if type(e).__name__ == "StopCheck" and ctx.violations:
+            rc = ctx.finish()
+            sys.stdout.flush()
+            os._exit(rc)          # (a runaway thread of the code under test is still alive)
+        traceback.print_exc()
+        print(f"MACHINERY-ERROR property={pid}: unexpected exception", file=sys.stderr)
+        rc = 2
+    sys.exit(rc)
+
+
+def _unused():
+    try:
+        pass
     except Exception:
         traceback.print_exc()
         print(f"MACHINERY-ERROR property={pid}: unexpected exception", file=sys.stderr)
